@@ -131,6 +131,11 @@ def curated():
                                 R(B, [5, C, 6], 5, 1, [2]), R(C, [7, 7], 6, 1, [])], maxlen=0, alphabet=[1, 2, 3, 4, 5, 6, 7],
                    inputs=[[1, 2, 3, 7, 7, 4], [1, 2, 3, 7, 7, 6, 2, 5, 7, 7, 6], [1, 2, 3, 7, 7, 6, 2, 5, 7, 7, 6, 2, 5, 7, 7, 4],
                            [1, 2, 3, 7, 7, 7, 6, 2, 5, 7, 7, 6, 2, 5, 7, 7, 6], [1, 2, 5, 7, 4, 2, 3, 7, 7, 4, 2, 3, 7, 7, 4]]))
+    # 25 the shared alternative list again, with costs that make the one or the other split strictly cheaper (the split visited second
+    #    wins in one of the two mirrored grammars, whatever the order of visits)
+    for k, (ca, cb) in enumerate(((1, 3), (3, 1))):
+        c.append(entry("sharedalt-asym%d" % k, [R(S, [A, B, C], 1, 0, [1, 2, 3]), R(A, [1], 2, 1, []), R(A, [1, 1], 3, ca, []), R(B, [1], 4, 1, []), R(B, [1, 1], 5, cb, []),
+                                               R(C, [3], 6, 5, []), R(C, [3], 7, 3, [])], maxlen=0, alphabet=[1, 3], inputs=[[1, 1, 1, 3], [1, 1, 1, 1, 3]]))
     return c
 
 
@@ -142,7 +147,8 @@ def wide_terminal_sets():
     base = {e["id"]: e for e in curated()}
     for gid in ("expr", "followchain", "nullchain", "stmts", "hiddenleft"):
         e = base[gid]
-        for npad in (62, 70, 130):
+        # 62 / 126 user terminals in all make, with `error' and the end marker, exactly 64 / 128: a full last word
+        for npad in (62, 70, 130, 62 - len(e["terms"]), 126 - len(e["terms"])):
             pads = list(range(101, 101 + npad))
             start = e["rules"][0]["l"]
             for where in ("before", "after"):
@@ -498,7 +504,7 @@ def ambig_chain_family():
                   out.append(e)
                   if depth >= 2 and pi in (0, 3, 5):
                       # the same with more than 64 terminals (terminal sets of two machine words), dummies before or after the real ones
-                      for npad in (62, 70):
+                      for npad in (62, 70, 59, 123):      # 59 / 123 dummies + 3 real terminals + error + end marker = 64 / 128
                           for where in ("before", "after"):
                               pads = [{"n": p, "c": p} for p in range(101, 101 + npad)]
                               terms = pads + e["terms"] if where == "before" else e["terms"] + pads
@@ -566,4 +572,23 @@ def bracket_fragment_inputs(seed, n):
             g = rnd.choice(good)
             groups += [g] * rnd.randint(1, 2)
         out.append([1] + [t for g in groups for t in g])
+    return out
+
+
+def access_after_unproductive():
+    """A nonterminal X that derives no terminal string stands in front of symbols that are reachable only through that rule:
+    the documented defect is `X does not derive', not `B is not accessible'.  B is declared before or after X, X is unproductive
+    directly or through a chain, the rule has a productive sibling or not, X stands first or in the middle."""
+    out = []
+    k = 0
+    for b_first in (0, 1):
+        for xkind in ("self", "chain", "mutual"):
+            for sibling in (0, 1):
+                for xpos in ("first", "middle"):
+                    X, Y = 15, 16
+                    xr = {"self": [R(X, [X, 1])], "chain": [R(X, [Y]), R(Y, [Y, 1])], "mutual": [R(X, [Y, 1]), R(Y, [X])]}[xkind]
+                    arule = R(A, [X, B]) if xpos == "first" else R(A, [1, X, B])
+                    body = ([R(B, [2])] if b_first else []) + ([R(A, [1])] if sibling else []) + [arule] + ([] if b_first else [R(B, [2])]) + xr
+                    k += 1
+                    out.append(entry("accunprod-%d" % k, [R(S, [A])] + body, maxlen=2, alphabet=[1, 2]))
     return out
